@@ -28,8 +28,10 @@ func (c14) Assumptions() []string {
 	return []string{"self-differential: the no-Buffer execution of the same code is the reference, so changes to what the parser accepts do not raise C14 alarms", "documents and decision tapes are sampled"}
 }
 func (c14) Required(tier string) []string {
-	return []string{"B-scribble", "B-resize", "H-reenter", "H-error", "H-nested", "reenter-with-enclosing-buffer", "reentrant-call-grew-shared-stack", "scribble-inside-callback",
-		"call-after-failed-call", "call-after-depth-limit-exit", "call-after-handler-abort", "stack-grown-by-call", "call-on-prewarmed-stack", "input-in-reused-arena", "same-address-same-length-different-bytes", "history-of-10000-calls"}
+	return []string{"B-scribble", "B-resize", "H-reenter", "H-error", "H-nested", "reenter-with-enclosing-buffer", "scribble-inside-callback",
+		// ("reentrant-call-grew-shared-stack", "stack-grown-by-call" and "call-on-prewarmed-stack" look at the
+		// Buffer's own representation: reported, not required - a Buffer that keeps its memory differently must not break the check)
+		"call-after-failed-call", "call-after-depth-limit-exit", "call-after-handler-abort", "input-in-reused-arena", "same-address-same-length-different-bytes", "history-of-10000-calls"}
 }
 
 var bufOps = []string{"Valid", "SkipValue", "SkipValueFast", "HandleArrayValues", "HandleObjectValues"}
